@@ -154,6 +154,53 @@ pub fn op_conflict_batch<K: Kern<D>, const D: usize>(tr: &mut Tracer, obj: usize
     ok
 }
 
+/// hull extension (public in core::algorithms::incremental_insertion): for every query outside the complex, add the
+/// point as an isolated vertex of a COPY of the Tds and let extend_hull connect it; log the facets it coned
+pub fn op_extend_hull_batch<K: Kern<D>, const D: usize>(tr: &mut Tracer, obj: usize, dt: &Dt<K, D>, qs: &[Vec<i64>]) -> bool {
+    use delaunay::core::algorithms::incremental_insertion::extend_hull;
+    use delaunay::core::algorithms::locate::LocateResult;
+    let kernel = K::default();
+    let mut items: Vec<Value> = Vec::new();
+    let mut ok = true;
+    for q in qs {
+        let pt = lattice_point::<D>(q, tr.s);
+        if !matches!(locate(dt.tds(), &kernel, &pt, None), Ok(LocateResult::Outside)) {
+            continue;
+        }
+        let g = tr.guard("extend_hull", || {
+            let mut t = dt.tds().clone();
+            let v = delaunay::core::vertex::Vertex::<f64, VData, D>::new_with_uuid(pt, mk_uuid(66_000_000), None);
+            let Some(vk) = t.verif_insert_isolated_vertex(v) else { return None };
+            let r = extend_hull(&mut t, &kernel, vk, &pt);
+            Some((t, vk, r))
+        });
+        match g {
+            Guarded::Done(None) => {}
+            Guarded::Done(Some((t, vk, Ok(cells)))) => {
+                let mut coned: Vec<Vec<i64>> = Vec::new();
+                for ck in cells.iter() {
+                    if let Some(c) = t.get_cell(*ck) {
+                        // vertex ids of the cell other than the new vertex (ids of the ORIGINAL complex)
+                        let f: Vec<i64> = c.vertices().iter().filter(|k| **k != vk).map(|k| tr.vkey_id(dt.tds(), *k)).collect();
+                        coned.push(f);
+                    }
+                }
+                items.push(json!({"q": q, "kind": "Ok", "coned": coned, "ncells_after": t.number_of_cells()}));
+            }
+            Guarded::Done(Some((_, _, Err(e)))) => {
+                items.push(json!({"q": q, "kind": "Err", "err": variant(&e), "coned": [], "ncells_after": -1}));
+            }
+            Guarded::Panicked(msg) => {
+                items.push(json!({"q": q, "kind": "Panic", "msg": msg, "coned": [], "ncells_after": -1}));
+                ok = false;
+                break;
+            }
+        }
+    }
+    tr.emit("ExtendHull", obj, json!({}), json!({"qs": items}), None, !ok);
+    ok
+}
+
 pub type Hull<K, const D: usize> = ConvexHull<K, VData, CData, D>;
 
 pub fn facet_vertex_ids<K: Kern<D>, const D: usize>(tr: &mut Tracer, dt: &Dt<K, D>, ck: CellKey, idx: u8) -> Vec<i64> {
